@@ -1,5 +1,5 @@
 (* Driver for M3 (server lifecycle).  Trace: first line "kind tcp|unix", then one label per line:
-   start | connect | connectbad | open | hello <c> | send <c> | leave <c> | stop.  Output: one observation line per label. *)
+   start | connect | connectbad | open | hello <c> | send <c> | sendwait <c> | leave <c> | abort <c> | stop.  Output: one observation line per label. *)
 open Common
 open SModel
 
@@ -11,14 +11,16 @@ let parse_label (s : string) : label =
   | ["open"] -> LOpen
   | ["hello"; c] -> LHello (ni c)
   | ["send"; c] -> LSend (ni c)
+  | ["sendwait"; c] -> LSendWait (ni c)
   | ["leave"; c] -> LLeave (ni c)
+  | ["abort"; c] -> LAbort (ni c)
   | ["stop"] -> LStop
   | _ -> failwith ("label " ^ s)
 
 let show (s : srv) : string =
   Printf.sprintf "listening=%s done=%s sock=%s refused=%s conns=%s" (sb s.v_listening) (sb s.v_done)
     (sb s.v_sockfile) (sn s.v_refused)
-    (join_list "," (L.map (fun k -> sb k.k_client_open ^ ":" ^ sb k.k_session ^ ":" ^ sn k.k_replies)
+    (join_list "," (L.map (fun k -> sb k.k_client_open ^ ":" ^ sb (k.k_client_open && k.k_session) ^ ":" ^ sn k.k_replies)
                       s.v_conns))
 
 let run lines =
